@@ -51,6 +51,7 @@ class Fn:
         self.ret = None
         self.rules = {}
         self.loopinfo = {}    # loop ordinal -> facts about generated range-for loops
+        self.loop_paths = {}  # loop ordinal -> nest path
         self.hoisted = []     # declarations moved from loop bodies to function level
 
 
@@ -1480,6 +1481,14 @@ class Lower:
 
     def loop_marker(self):
         self.cur.loops += 1
+        # nest path of the loop ("2.1" = first loop inside the second top-level loop): a key that survives the removal of other loops
+        d = max(1, self.loop_depth)
+        lp = getattr(self, '_lp', [])[:d]
+        while len(lp) < d:
+            lp.append(0)
+        lp[d - 1] += 1
+        self._lp = lp
+        self.cur.loop_paths[self.cur.loops] = '.'.join(str(x) for x in lp)
         return '/*@LOOP %d@*/' % self.cur.loops
 
     def st_WhileStmt(self, n, ind, out):
@@ -1748,6 +1757,7 @@ class Lower:
         if not body:
             raise LowerError("function %s has no body" % f.cname)
         self.loop_depth = 0
+        self._lp = []
         inner = self.st(body[0], '  ')
         out.extend('  ' + h for h in f.hoisted)
         # a call evaluated after an exception was raised (nested call arguments) must have no effect
